@@ -207,7 +207,7 @@ def compare(cdoc, M, label_of, thr, cfg, twin=None, decimals=-1, expect_empty_sh
                 if M.mixed_kind_signature(S, k[0], thr):
                     sig = "C02-MIXEDKIND"
                 else:
-                    sig = _goneref_sig(M, S, k[0], thr, cdoc, label_of, cfg.get("keep_less_specific", True))
+                    sig = _goneref_sig(M, S, k[0], thr, cdoc, label_of, cfg.get("keep_less_specific", True), cfg.get("disable_or_statements", True) is False)
             out.append(Finding("KEY_MISSING", "%s %s" % (lab, k), sig))
         for k in keys - exp:
             out.append(Finding("KEY_EXTRA", "%s %s" % (lab, k)))
@@ -221,7 +221,7 @@ def compare(cdoc, M, label_of, thr, cfg, twin=None, decimals=-1, expect_empty_sh
             for k in exp:
                 if k[1] == ("nonliteral",) and M.mixed_kind_signature(S, k[0], thr):
                     sigs.append("C02-MIXEDKIND")
-                elif k[1] == ("nonliteral",) and _goneref_sig(M, S, k[0], thr, cdoc, label_of, cfg.get("keep_less_specific", True)):
+                elif k[1] == ("nonliteral",) and _goneref_sig(M, S, k[0], thr, cdoc, label_of, cfg.get("keep_less_specific", True), cfg.get("disable_or_statements", True) is False):
                     sigs.append("C02-GONEREF")
                 else:
                     sigs.append(None)
@@ -232,7 +232,7 @@ def compare(cdoc, M, label_of, thr, cfg, twin=None, decimals=-1, expect_empty_sh
     return out
 
 
-def _goneref_sig(M, S, dp, thr, cdoc, label_of, kls=True):
+def _goneref_sig(M, S, dp, thr, cdoc, label_of, kls=True, or_mode=False):
     """C02-GONEREF: the WINNING alternative is a reference to a shape that is not in the document.  A reference wins over the node
     kind it specialises only when it is as frequent as that kind (every instance with such a value has one of that shape) - with
     keep_less_specific=False the most frequent exact cardinalities are compared instead.  A reference that merely reaches the
@@ -244,6 +244,10 @@ def _goneref_sig(M, S, dp, thr, cdoc, label_of, kls=True):
     for k, n in plus.items():
         if k[0] != "ref" or n / N < thr or k[1] in cdoc:
             continue
+        if or_mode:
+            # with disjunctions enabled every alternative at or above the threshold is a member of the OR statement, and the whole
+            # statement is dropped when one member points to a removed shape - the reference need not win against the node kind
+            return "C02-GONEREF"
         for kind in (("kind", "IRI"), ("kind", "BNode")):
             if kind not in plus:
                 continue
